@@ -370,7 +370,9 @@ impl Display for RecordValue {
 
 #[inline]
 fn serialize_integer(value: i64, min: i64, max: i64, buffer: &mut ByteStreamWriteBuffer) {
-    let uint = (value - min) as u64;
+    // Two's complement wrapping subtraction: the difference of two i64 values
+    // can exceed i64::MAX (e.g. min=i64::MIN) but always fits into an u64.
+    let uint = value.wrapping_sub(min) as u64;
     let data = uint.to_le_bytes();
     let bits = integer_bits(min, max);
     buffer.add_bits(&data, bits);
